@@ -265,6 +265,11 @@ func (this *contractExecutor) decodeContractData(txData string) (*ContractRawDat
 		this.logger.Errorf("Contract TransferValue convert error:%s", err.Error())
 		return nil, fmt.Sprintf("Contract data TransferValue eror, data: %s", data.TransferValue)
 	}
+	if transferValue.Sign() < 0 {
+		// a negative value passes the balance checks and credits both sides
+		this.logger.Errorf("Contract TransferValue negative:%s", data.TransferValue)
+		return nil, fmt.Sprintf("Contract data TransferValue eror, data: %s", data.TransferValue)
+	}
 
 	var input []byte
 	if common.IsProposal005() && (data.AbiData == "" || data.AbiData == "0x0") {
